@@ -95,4 +95,4 @@ def run(ctx):
     ctx.mir()
     ctx.parallel([('offset', c12m.offset_task)], max_procs=1)
     # c13.rs: the `prop=C13,C12,C05` harness (Pinocchio dynamic tick array update_tick on a two-operation history; dynamic tick DATA is otherwise C13's part)
-    ctx.run_kani(['c12.rs', 'c13.rs'])
+    ctx.run_kani(['c12.rs'] + (['c13.rs'] if ctx.tier == 'thorough' else []))      # the 20 GB dynamic-array history harness exceeds the quick budget: thorough tier only (C13's quick tier runs its core)
